@@ -30,10 +30,12 @@ props! {
     "C07" => c07,
     "C08" => c08,
     "C09" => c09,
+    "C10" => c10,
     "C11" => c11,
     "C13" => c13,
     "C14" => c14,
     "C15" => c15,
     "C16" => c16,
     "C17" => c17,
+    "C18" => c18,
 }
